@@ -48,6 +48,12 @@ theorem getId_props (i : Ids) (hn : i.free.Nodup) (hlt : ∀ x, x ∈ i.free →
     intro hx
     exact h3 x hx x (by simp) rfl
 
+/-- the pop of seeded change C11-e: first element handed out, last element dropped -/
+def getIdMixed (i : Ids) : Nat × Ids :=
+  match i.free with
+  | [] => (i.seq, { free := [], seq := i.seq + 1 })
+  | x :: _ => (x, { i with free := i.free.dropLast })
+
 /-! #### effect of the steps on the log -/
 
 theorem logOf_append_same (s : Sys) (r sid : Nat) (l : List Bytes) :
